@@ -120,6 +120,13 @@ func SeamB(t *testing.T, rep *ev.Report, prop, header string, ref Ref, shard, of
 	if !ev.Thorough() {
 		shapes = []Shape{shapes[0], shapes[1], shapes[3], shapes[6], shapes[10], shapes[12], shapes[13], shapes[14], shapes[15]}
 	}
+	if shard == of-1 {
+		n := 300
+		if ev.Thorough() {
+			n = 700
+		}
+		Population(t, rep, prop, header, ref, n)
+	}
 	job := 0
 	for _, set := range []string{"default", "default+custom"} {
 		for _, sh := range shapes {
@@ -300,4 +307,112 @@ func contains(set []string, s string) bool {
 		}
 	}
 	return false
+}
+
+// Population: the header of a request is the fingerprint of the hello of ITS connection also in a process that has
+// seen many other hellos. One HTTP/1.1 keep-alive client and one HTTP/2 client stay connected while n clients with
+// pairwise different cipher-suite and extension lists connect, send one request and leave; the residents' requests
+// before and after, the requests of the population and the residents' hellos on fresh connections are all judged by
+// the property's own reference.
+func Population(t *testing.T, rep *ev.Report, prop, header string, ref Ref, n int) {
+	res := bubble.Run(t, func() {
+		st := bubble.NewStack(bubble.StackOpts{Injectors: fingerproxy.DefaultHeaderInjectors()})
+		defer st.Shutdown()
+		by := map[string]*bubble.Client{}
+		variant := func(k int, alpn []string) bubble.Hello {
+			return bubble.Hello{Name: fmt.Sprintf("variant-%d", k), ID: &utls.HelloChrome_102, ALPN: alpn, SNI: "localhost",
+				Mutate: func(spec *utls.ClientHelloSpec) {
+					spec.CipherSuites = append(append([]uint16{}, spec.CipherSuites...), uint16(0x5000+k))
+					last := len(spec.Extensions) - 1
+					spec.Extensions = append(append([]utls.TLSExtension{}, spec.Extensions[:last]...), &utls.GenericExtension{Id: uint16(0x6000 + k)}, spec.Extensions[last])
+				}}
+		}
+		connect := func(name string, h bubble.Hello) *bubble.Client {
+			cl := st.Connect(name, nil, h)
+			synctest.Wait()
+			if d, err := cl.Handshake(); !d || err != nil {
+				rep.HarnessError("%s population: handshake of %s: %v %v", prop, name, d, err)
+				return nil
+			}
+			return cl
+		}
+		h1 := func(cl *bubble.Client, path string) {
+			if cl == nil {
+				return
+			}
+			cl.SendH1(bubble.Req{Path: path, Host: "localhost"})
+			by[path] = cl
+			synctest.Wait()
+		}
+		stream := uint32(1)
+		h2 := func(cl *bubble.Client, path string) {
+			if cl == nil {
+				return
+			}
+			cl.SendH2(stream, bubble.Req{Path: path, Host: "localhost"})
+			stream += 2
+			by[path] = cl
+			synctest.Wait()
+		}
+		r1 := connect("resident-h1", variant(0, []string{"http/1.1"}))
+		h1(r1, "/resident-h1/1")
+		r2 := connect("resident-h2", variant(1, []string{"h2"}))
+		if r2 != nil {
+			r2.StartH2()
+			synctest.Wait()
+		}
+		h2(r2, "/resident-h2/1")
+		for k := 2; k < 2+n; k++ {
+			cl := connect(fmt.Sprintf("p%d", k), variant(k, []string{"http/1.1"}))
+			h1(cl, fmt.Sprintf("/p/%d", k))
+			if cl != nil {
+				cl.Close()
+			}
+			synctest.Wait()
+		}
+		h1(r1, "/resident-h1/2")
+		h2(r2, "/resident-h2/2")
+		h1(connect("resident-h1-again", variant(0, []string{"http/1.1"})), "/resident-h1-again/1")
+		h1(connect("p2-again", variant(2, []string{"http/1.1"})), "/p2-again/1")
+		got := st.Backend.All()
+		rep.Add("population_requests", int64(len(got)))
+		if len(got) != len(by) {
+			rep.Violate(map[string]any{"kind": "population-request-lost", "seam": "B"}, map[string]any{"sent": len(by), "received": len(got)}, "population: %d requests sent, the backend received %d", len(by), len(got))
+		}
+		distinct := map[string]bool{}
+		for _, r := range got {
+			cl := by[r.Path]
+			if cl == nil {
+				continue
+			}
+			adm, ok := ref(cl.FirstRecord())
+			if !ok {
+				continue
+			}
+			vals := r.Values(header)
+			good := false
+			for _, a := range adm {
+				if len(vals) == 1 && vals[0] == a {
+					good = true
+				}
+			}
+			if len(vals) == 1 {
+				distinct[vals[0]] = true
+			}
+			if !good {
+				rep.Violate(map[string]any{"kind": "fingerprint-of-another-hello", "seam": "B-population", "header": header},
+					map[string]any{"request": r.Path, "client": cl.Name, "population": n, "values": vals, "admissible": adm},
+					"population of %d distinct hellos: request %s (client %s) reached the backend with %s=%v; the ClientHello of its connection has fingerprint %v", n, r.Path, cl.Name, header, vals, adm)
+			}
+		}
+		if len(distinct) < n {
+			rep.HarnessError("%s population is vacuous: %d distinct values among %d different hellos", prop, len(distinct), n+2)
+		}
+	})
+	if res.Panic != nil {
+		rep.HarnessError("%s population: panic %v\n%s", prop, res.Panic, res.Stack)
+	}
+	if res.Hang != "" {
+		rep.Violate(map[string]any{"kind": "hang", "seam": "B-population"}, map[string]any{"hang": res.Hang}, "population: %s", res.Hang)
+	}
 }
